@@ -95,7 +95,7 @@ type namedHash struct {
 	size int
 }
 
-var realHashes = []namedHash{{"sha1", sha1.New, 20}, {"sha256", sha256.New, 32}, {"sha512", sha512.New, 64}}
+var realHashes = []namedHash{{"sha1", sha1.New, 20}, {"sha256", sha256.New, 32}, {"sha384", sha512.New384, 48}, {"sha512", sha512.New, 64}}
 
 func hashByName(n string) (func() hash.Hash, bool) {
 	for _, h := range realHashes {
@@ -110,6 +110,9 @@ type env struct {
 	t    *testing.T
 	out  *vutil.Out
 	seen map[string]int
+	// bnd counts, per hash, replays in which a Read ended exactly on a block boundary after generating at
+	// least one whole block, the caller's buffer was then overwritten, and a later Read generated a new block
+	bnd map[string]int
 }
 
 // fail records a violation (at most 5 per signature, so that one defect does not crowd out another).
@@ -149,26 +152,73 @@ type stream struct {
 	okm                     []byte // full 255*hsize bytes
 }
 
+// reader builds a real reader from private copies of the inputs; the copies of secret, salt and PRK
+// (consumed by the constructor) are overwritten before the reader is used.  info is passed as a
+// private copy that nobody modifies: hkdfReader keeps the caller's info slice (see probeInfoAliasing).
 func (s *stream) reader(viaNew bool) io.Reader {
+	cp := func(b []byte) []byte { return append([]byte(nil), b...) }
+	wipe := func(b []byte) {
+		for i := range b {
+			b[i] = 0xA5
+		}
+	}
+	var r io.Reader
 	if viaNew {
 		var salt []byte
 		if len(s.salt) > 0 {
-			salt = s.salt
+			salt = cp(s.salt)
 		}
-		return hkdf.New(s.newHash, s.secret, salt, s.info)
+		secret := cp(s.secret)
+		r = hkdf.New(s.newHash, secret, salt, cp(s.info))
+		wipe(secret)
+		wipe(salt)
+	} else {
+		prk := cp(s.prk)
+		r = hkdf.Expand(s.newHash, prk, cp(s.info))
+		wipe(prk)
 	}
-	return hkdf.Expand(s.newHash, s.prk, s.info)
+	return r
+}
+
+// Buffer disciplines of a replay: the buffers passed to Read belong to the caller, the reader must not
+// retain them (spec/HkdfReader.tla, action Scribble).
+const (
+	discFreshScribble  = 0 // a fresh buffer per Read, overwritten (00 / ff / pseudo-random) once its content is checked
+	discSharedScribble = 1 // one array reused for every Read, overwritten between Reads
+	discSharedKeep     = 2 // one array reused for every Read, still holding the previous output
+	nDisc              = 3
+)
+
+var discName = []string{"fresh buffer, overwritten after use", "shared buffer, overwritten between reads", "shared buffer, previous output left in place"}
+
+func scribble(b []byte, k int) {
+	switch k % 3 {
+	case 0:
+		for i := range b {
+			b[i] = 0
+		}
+	case 1:
+		for i := range b {
+			b[i] = 0xff
+		}
+	default:
+		x := uint32(k)*2654435761 + 12345
+		for i := range b {
+			x = x*1664525 + 1013904223
+			b[i] = byte(x >> 24)
+		}
+	}
 }
 
 // replay runs one history of Read sizes on a real reader.  The judgement is the abstract model's rule
 // (spec/HkdfReader.tla): with pos bytes consumed, Read(n) must fail iff n > 255*H - pos and then
 // consume nothing; otherwise it returns the next bytes of the stream.  model, when non-nil, carries
 // TLC's own prediction per call and is cross-checked against the rule (harness self-check).
-func (e *env) replay(s *stream, viaNew bool, sizes []int, model []read, src string) {
+func (e *env) replay(s *stream, viaNew bool, disc int, sizes []int, model []read, src string) {
 	limit := 255 * s.hsize
 	d := func(i int, extra map[string]any) map[string]any {
 		m := map[string]any{"stream": s.label, "hash": s.hname, "via": map[bool]string{true: "New", false: "Expand"}[viaNew],
-			"reads": sizes, "index": i, "source": src}
+			"reads": sizes, "index": i, "source": src, "buffers": discName[disc]}
 		for k, v := range extra {
 			m[k] = v
 		}
@@ -177,13 +227,43 @@ func (e *env) replay(s *stream, viaNew bool, sizes []int, model []read, src stri
 	e.guard("c18-hkdf-panic", d(-1, nil), func() {
 		r := s.reader(viaNew)
 		pos := 0
+		var shared []byte
+		if disc != discFreshScribble {
+			mx := 0
+			for _, n := range sizes {
+				if n > mx {
+					mx = n
+				}
+			}
+			shared = bytes.Repeat([]byte{0xEE}, mx)
+		}
+		armed, counted := false, false
 		for i, n := range sizes {
 			wantErr := n > limit-pos
 			if model != nil && (model[i].Err != wantErr || (!wantErr && model[i].From != pos)) {
 				e.t.Fatalf("harness: abstract rule disagrees with TLC's history %v at %d", sizes, i)
 			}
-			buf := bytes.Repeat([]byte{0xEE}, n)
+			var buf []byte
+			if disc == discFreshScribble {
+				buf = bytes.Repeat([]byte{0xEE}, n)
+			} else {
+				buf = shared[:n]
+			}
+			if armed && n > 0 && !wantErr && !counted { // this Read has to generate a new block after the scribble
+				counted = true
+				e.bnd[s.hname]++
+			}
 			got, err := r.Read(buf)
+			// copy the result out, then - the caller owns buf - overwrite it before anything else happens
+			var res []byte
+			if got >= 0 && got <= n {
+				res = append([]byte(nil), buf[:got]...)
+			}
+			scribbled := false
+			if disc != discSharedKeep && n > 0 {
+				scribble(buf, i+n)
+				scribbled = true
+			}
 			if wantErr {
 				if err == nil {
 					e.fail("c18-hkdf-read-beyond-limit-succeeds", "Read beyond the 255*HashLen limit did not fail",
@@ -208,19 +288,43 @@ func (e *env) replay(s *stream, viaNew bool, sizes []int, model []read, src stri
 			if got < n {
 				e.out.Extra["short_reads"] = 1
 			}
-			if !bytes.Equal(buf[:got], s.okm[pos:pos+got]) {
+			if !bytes.Equal(res, s.okm[pos:pos+got]) {
 				j := 0
-				for j < got && buf[j] == s.okm[pos+j] {
+				for j < got && res[j] == s.okm[pos+j] {
 					j++
 				}
 				e.fail("c18-hkdf-stream-mismatch", "Read returned bytes that are not the next bytes of the RFC 5869 stream",
 					d(i, map[string]any{"pos": pos, "n": n, "first_diff_at_stream_pos": pos + j, "block": (pos+j)/s.hsize + 1,
-						"got": hx(buf[j:got]), "want": hx(s.okm[pos+j : pos+got])}))
+						"got": hx(res[j:got]), "want": hx(s.okm[pos+j : pos+got])}))
 				return
+			}
+			if fresh := got - (s.hsize-pos%s.hsize)%s.hsize; scribbled && fresh >= s.hsize && fresh%s.hsize == 0 {
+				armed = true
 			}
 			pos += got
 		}
 	})
+}
+
+// probeInfoAliasing reports whether modifying the info slice after hkdf.Expand changes later output.
+// hkdf.Expand/New store the caller's slice; RFC 5869 and the package documentation are silent on
+// ownership of constructor arguments, so this is recorded, not judged.
+func probeInfoAliasing() string {
+	prk := bytes.Repeat([]byte{7}, 32)
+	want := make([]byte, 96)
+	io.ReadFull(hkdf.Expand(sha256.New, prk, []byte("context-info")), want)
+	info := []byte("context-info")
+	r := hkdf.Expand(sha256.New, prk, info)
+	got := make([]byte, 96)
+	io.ReadFull(r, got[:32])
+	for i := range info {
+		info[i] = 0
+	}
+	io.ReadFull(r, got[32:])
+	if bytes.Equal(got, want) {
+		return "no: output unaffected by overwriting info after Expand"
+	}
+	return "yes: overwriting the info slice after Expand changes every later block (the reader aliases the caller's slice)"
 }
 
 func TestReplay(t *testing.T) {
@@ -230,7 +334,7 @@ func TestReplay(t *testing.T) {
 			t.Errorf("write out: %v", err)
 		}
 	}()
-	e := &env{t: t, out: out}
+	e := &env{t: t, out: out, bnd: map[string]int{}}
 	var cases []rec
 	if err := vutil.ReadNDJSON(os.Getenv("VERIF_CASES"), func(line []byte) error {
 		var r rec
@@ -407,7 +511,8 @@ func TestReplay(t *testing.T) {
 			}
 		})
 		for _, viaNew := range []bool{false, true} {
-			e.replay(s, viaNew, []int{255 * s.hsize, 0, 1}, nil, "whole-stream")
+			e.replay(s, viaNew, discFreshScribble, []int{255 * s.hsize, 0, 1}, nil, "whole-stream")
+			e.replay(s, viaNew, discSharedScribble, []int{s.hsize, 2 * s.hsize, 1, s.hsize - 1, 3 * s.hsize, s.hsize + 1}, nil, "block-boundaries")
 			out.Case("whole " + s.label + fmt.Sprint(viaNew))
 		}
 	}
@@ -431,7 +536,7 @@ func TestReplay(t *testing.T) {
 		}
 		for k := 0; k < len(match) && k < 6; k++ {
 			s := match[(nh+k)%len(match)]
-			e.replay(s, (nh+k)%2 == 0, sizes, r.Reads, "tlc-history")
+			e.replay(s, (nh+k)%2 == 0, (nh/2+k)%nDisc, sizes, r.Reads, "tlc-history")
 			out.Case(fmt.Sprintf("hist %s %v", s.label, sizes))
 		}
 		if nh%500 == 0 {
@@ -460,6 +565,8 @@ func TestReplay(t *testing.T) {
 			n := rng.Intn(maxRead + 1)
 			if rng.Intn(50) == 0 {
 				n = limit - pos + rng.Intn(3) // around what is left
+			} else if rng.Intn(8) == 0 {
+				n = (s.hsize-pos%s.hsize)%s.hsize + s.hsize*(1+rng.Intn(3)) // end exactly on a block boundary
 			}
 			sizes = append(sizes, n)
 			if n <= limit-pos {
@@ -470,9 +577,22 @@ func TestReplay(t *testing.T) {
 				break
 			}
 		}
-		e.replay(s, i%2 == 0, sizes, nil, "random-history")
+		e.replay(s, i%2 == 0, (i/2)%nDisc, sizes, nil, "random-history")
 		out.Case(fmt.Sprintf("rand %d %s", i, s.label))
 	}
+
+	// vacuity guard data: replays that exercised "Read ends on a block boundary, buffer overwritten, new block generated"
+	tot := 0
+	per := map[string]any{}
+	for k, v := range e.bnd {
+		per[k] = v
+		tot += v
+	}
+	out.Extra["boundary_scribble_newblock_replays"] = tot
+	out.Extra["boundary_scribble_newblock_replays_per_hash"] = per
+
+	// ---- 5b. informational probe (never a verdict): the reader keeps the caller's info slice
+	out.Extra["informational"] = map[string]any{"info_slice_retained_by_reader": probeInfoAliasing()}
 
 	// ---- 6. PBKDF2 with the toy hash against TLC
 	for _, r := range cases {
